@@ -34,6 +34,19 @@ def source_structure(text):
     return isas
 
 
+def ta1_in_place(flat):
+    """TA1 is an interchange-level segment: inside a functional group or a transaction set it ends them as far as the
+    map is concerned (the walker leaves GS_LOOP for /ISA_LOOP/TA1), exactly like an orphan trailer would; such input
+    does not nest properly"""
+    depth = 0
+    for s in flat:
+        if s[0] == 'GS': depth += 1
+        elif s[0] == 'GE': depth -= 1
+        elif s[0] == 'TA1' and depth > 0:
+            return False
+    return True
+
+
 def set_errors(st):
     n = len(st['errors']) + len(st['ele'])
     for s in st['segs']:
@@ -98,7 +111,7 @@ def judge(text, o):
         return v
     toks, _d = ref.tokenize(text)
     flat = [[t.id] + [':'.join(c) for c in t.eles] for t in toks if t.id is not None]
-    nested = ref.nests(flat)
+    nested = ref.nests(flat) and ta1_in_place(flat)
     nt = 'nested' if nested else 'not-nested'
     ack = parse_ack(o.ack)
     tree_groups = [(i, gi, gr) for i, isa in enumerate(o.tree) for gi, gr in enumerate(isa['gs'])]
@@ -119,6 +132,16 @@ def judge(text, o):
                 ge = group_errors(tg)
                 if (g(ag['ak9'], 1) == 'A') != (ge == 0):
                     v.append(('C05|ack|not-nested|AK9 %s with %s' % (g(ag['ak9'], 1), 'no error' if ge == 0 else 'errors'), 'AK9 %r but %d errors inside the group' % (ag['ak9'], ge)))
+        # ... and, when the acknowledgement names exactly as many groups (sets) as there are GS (ST) segments, each
+        # must carry its own control number: which header "its own" is does not depend on the lost trailers
+        if len(ack['groups']) == len(src_groups):
+            for sg, ag in zip(src_groups, ack['groups']):
+                if len(sg['gs']) > 5 and (g(ag['ak1'], 1) != echo(g(sg['gs'], 0)) or g(ag['ak1'], 2) != echo(g(sg['gs'], 5))):
+                    v.append(('C05|ack|not-nested|AK1 does not name the group', 'AK1 %r vs GS01/GS06 %r/%r' % (ag['ak1'], g(sg['gs'], 0), g(sg['gs'], 5))))
+                if len(ag['sets']) == len(sg['st']) and all(ss['st01'] and ss['st02'] for ss in sg['st']):
+                    for ss, as_ in zip(sg['st'], ag['sets']):
+                        if g(as_['ak2'], 1) != echo(ss['st01']) or g(as_['ak2'], 2) != echo(ss['st02'] or '').strip():
+                            v.append(('C05|ack|not-nested|AK2 does not name the set', 'AK2 %r vs ST01/ST02 %r/%r' % (as_['ak2'], ss['st01'], ss['st02'])))
         return v
     # addressed back to the sender (the ack is written for the last interchange / group header seen)
     last_isa = src[-1]['isa']
